@@ -107,7 +107,7 @@ func TestC11(t *testing.T) {
 		t.Fatal(err)
 	}
 
-	ncases := r.N(24, 300)
+	ncases := r.N(24, 200)
 
 	var nontrivial int64
 
